@@ -1,4 +1,4 @@
-CONSTANT CfgSet <- S_cts_cancel_unfixed
+CONSTANT CfgSet <- Set_c02_quick
 INIT MCInit
 NEXT Next
 CHECK_DEADLOCK FALSE
